@@ -36,6 +36,9 @@ mut("c14_setrates_accumulates", ["C14"], "SetRates 'optimised' to scale the stor
           "        for symmrate, expansion in zip(self.symmrate, self.Taylorjumps):\n            expansion *= symmrate\n        self.omega_Taylor = sum(expansion for expansion in self.Taylorjumps)\n")])
 mut("c14_clearcache_partial", ["C14"], "clearcache() forgets the GF values (only clears the two small dicts)",
     [(OC, "        self.GFvalues, self.Lvvvalues, self.etavvalues = {}, {}, {}\n", "        self.Lvvvalues, self.etavvalues = {}, {}\n        if not hasattr(self, 'GFvalues'): self.GFvalues = {}\n")])
+mut("c14_states_handed_out", ["C14"], "re-introduce D9: interactlist() returns the calculator's own PairState objects",
+    [(OC, "        return [stars.PairState(i=PS.i, j=PS.j, R=PS.R.copy(), dx=PS.dx.copy())\n                for PS in (self.thermo.states[s[0]] for s in self.thermo.stars)]\n",
+          "        return [self.thermo.states[s[0]] for s in self.thermo.stars]\n")])
 # ---------------- C13
 mut("c13_no_threshold", ["C13"], "re-introduce D6: loadhdf5 does not restore threshold",
     [(OC, "        diffuser.threshold = diffuser.crys.threshold\n", "")])
